@@ -33,10 +33,12 @@ const (
 	LTrim              // text.LeftTrim(kid, Mode)
 	RTrim              // text.RightTrim(kid, Mode)
 	End                // parser.End()
+	SupErr             // combinator.SuppressError(kid)
+	Single             // combinator.Single(kid)
 	nKinds
 )
 
-var kindNames = [...]string{"t", "eps", "N", "S", "any", "choice", "seq", "opt", "many", "many1", "sepby", "sepby1", "seqtry", "seqfoa", "memo", "ltrim", "rtrim", "end"}
+var kindNames = [...]string{"t", "eps", "N", "S", "any", "choice", "seq", "opt", "many", "many1", "sepby", "sepby1", "seqtry", "seqfoa", "memo", "ltrim", "rtrim", "end", "suppress", "single"}
 
 func (k Kind) String() string { return kindNames[k] }
 
